@@ -251,9 +251,15 @@ def run(frag, tier, replay=None, solo=False):
 
 def all_fragments():
     out = []
+    try:
+        enabled = set(open(os.path.join(VERIF, "checks", "ENABLED")).read().split())
+    except OSError:
+        enabled = None
     for p in sorted(glob.glob(os.path.join(VERIF, "checks", "C*.json"))):
         with open(p) as f:
-            out.append(json.load(f))
+            fr = json.load(f)
+        if enabled is None or fr["property_id"] in enabled:
+            out.append(fr)
     return out
 
 
